@@ -4,7 +4,7 @@ import os
 
 from .. import prange as PR
 from ..loader import AnalysisError, norm_stmt
-from ..small import UnrollError, return_cases
+from ..small import UnrollError, merge_cases, return_cases
 
 KERNEL_MODULES = ["field/summator.pyx", "krige/krigesum.pyx", "variogram/estimator.pyx"]
 WRAPPER_MODULES = ["field/generator.py", "krige/base.py", "variogram/variogram.py"]
@@ -230,7 +230,7 @@ def threads_rules(ctx, rule="R15.3"):
         mod = prog.mod(rel)
         fn = prog.func(rel, "set_num_threads")
         try:
-            dumps[rel] = tuple(sorted((tuple(sorted(c)), v) for c, v in return_cases(fn)))
+            dumps[rel] = tuple(sorted((tuple(sorted(c)), v) for c, v in merge_cases(return_cases(fn))))
         except UnrollError as e:
             raise AnalysisError("set_num_threads of %s is no longer a decision table: %s" % (rel, e))
         # decision table of the function (independent of how the default is initialised or the branches are nested)
@@ -282,6 +282,9 @@ def inputs_not_written(ctx, rule="R15.1", files=None):
 
 def run(ctx):
     from .C09 import directions
+    from .C05 import chunks
+
+    chunks(ctx, rule="R15.16", with_kernels=False)  # the Python dispatcher hands every target point to the kernels exactly once (shared with C05): an uncovered tail keeps uninitialised memory
 
     directions(ctx, rule="R15.5")  # what the directional kernel assumes about its arguments (normed directions, bandwidth 'off' value, separated flag with |cos|)
     loop_rules(ctx)
